@@ -78,7 +78,7 @@ TrRet ==
   /\ Ev("ret")
   /\ LET p == Trace[l].p IN
        /\ Return(p)
-       /\ IF p \in Claimers THEN SameOut(out[p], Trace[l].out) ELSE out[p] = Trace[l].out
+       /\ IF p \in Claimers THEN SameOut(out[p], Trace[l].out) ELSE (out[p] = Trace[l].out \/ Trace[l].out = <<"?">>)
   /\ Consume
 
 TrPost ==
